@@ -6,50 +6,58 @@ import NmVerif.NN.Spec
 -/
 namespace NmVerif.NN
 
-/-- domain of the pooling theorems: positive kernel that fits, positive stride and, in ceil mode, the last counted
-    window starts inside the input (`⌈(n-k)/s⌉·s < n`; always true when `s ≤ k`, see `poolDom_of_stride_le_kernel`) -/
-def PoolDom (n k s : Nat) (ceil : Bool) : Prop :=
-  0 < k ∧ k ≤ n ∧ 0 < s ∧ (ceil = true → ((n - k + (s - 1)) / s) * s < n)
+/-- domain of the pooling theorems: positive kernel that fits the input, positive stride -/
+def PoolDom (n k s : Nat) : Prop := 0 < k ∧ k ≤ n ∧ 0 < s
 
-instance (n k s : Nat) (c : Bool) : Decidable (PoolDom n k s c) := by unfold PoolDom; exact inferInstance
+instance (n k s : Nat) : Decidable (PoolDom n k s) := by unfold PoolDom; exact inferInstance
 
-theorem poolDom_of_stride_le_kernel {n k s : Nat} (c : Bool) (hk : 0 < k) (hkn : k ≤ n) (hs : 0 < s) (hsk : s ≤ k) :
-    PoolDom n k s c := by
-  refine ⟨hk, hkn, hs, fun _ => ?_⟩
-  have h1 : (n - k + (s - 1)) / s * s ≤ n - k + (s - 1) := Nat.div_mul_le_self _ _
-  omega
-
-theorem poolExtent_eq_spec {n k s : Nat} {c : Bool} (h : PoolDom n k s c) :
+theorem poolExtent_eq_spec {n k s : Nat} (c : Bool) (h : PoolDom n k s) :
     poolExtent n k s c = poolOutSpec n k s c := by
-  obtain ⟨hk, hkn, hs, hc⟩ := h
+  obtain ⟨hk, hkn, hs⟩ := h
   unfold poolExtent poolOutSpec
   cases c with
   | true =>
-    have := hc rfl
     have e : n - k + s - 1 = n - k + (s - 1) := by omega
-    simp only [if_true, e]
-    rw [if_neg]
-    simp only [Nat.add_sub_cancel]
-    omega
+    simp only [if_true, e, Nat.add_sub_cancel]
+    by_cases h1 : (n - k + (s - 1)) / s * s ≥ n
+    · have hq : 0 < (n - k + (s - 1)) / s := by
+        rcases Nat.eq_zero_or_pos ((n - k + (s - 1)) / s) with h0 | h0
+        · rw [h0] at h1; omega
+        · exact h0
+      have h2 : (n - k + (s - 1)) / s + 1 > 1 := by omega
+      simp only [h1, h2, and_self, if_true]
+    · simp only [h1, and_false, if_false]
   | false =>
     simp only [Bool.false_eq_true, if_false, outSize]
     have e : n + 2 * 0 - 1 * (k - 1) - 1 = n - k := by omega
     rw [e]
 
 /-- every counted window starts inside the input -/
-theorem pool_start_lt {n k s : Nat} {c : Bool} (h : PoolDom n k s c) {i : Nat} (hi : i < poolExtent n k s c) :
+theorem pool_start_lt {n k s : Nat} {c : Bool} (h : PoolDom n k s) {i : Nat} (hi : i < poolExtent n k s c) :
     s * i < n := by
-  obtain ⟨hk, hkn, hs, hc⟩ := h
+  obtain ⟨hk, hkn, hs⟩ := h
   unfold poolExtent at hi
   cases c with
   | true =>
-    have hq := hc rfl
     have e : n - k + s - 1 = n - k + (s - 1) := by omega
-    simp only [if_true, e] at hi
-    have h1 : i ≤ (n - k + (s - 1)) / s := by omega
-    have h2 : s * i ≤ s * ((n - k + (s - 1)) / s) := Nat.mul_le_mul_left s h1
-    rw [Nat.mul_comm s ((n - k + (s - 1)) / s)] at h2
-    omega
+    simp only [if_true, e, Nat.add_sub_cancel] at hi
+    have hql : (n - k + (s - 1)) / s * s ≤ n - k + (s - 1) := Nat.div_mul_le_self _ _
+    by_cases h1 : (n - k + (s - 1)) / s + 1 > 1 ∧ (n - k + (s - 1)) / s * s ≥ n
+    · rw [if_pos h1] at hi
+      -- i ≤ q - 1 and (q - 1) * s < n
+      have hi' : i + 1 ≤ (n - k + (s - 1)) / s := by omega
+      have h2 : s * (i + 1) ≤ s * ((n - k + (s - 1)) / s) := Nat.mul_le_mul_left s hi'
+      rw [Nat.mul_comm s ((n - k + (s - 1)) / s)] at h2
+      have h3 : s * (i + 1) = s * i + s := by rw [Nat.mul_add, Nat.mul_one]
+      omega
+    · rw [if_neg h1] at hi
+      have hi' : i ≤ (n - k + (s - 1)) / s := by omega
+      have h2 : s * i ≤ s * ((n - k + (s - 1)) / s) := Nat.mul_le_mul_left s hi'
+      rw [Nat.mul_comm s ((n - k + (s - 1)) / s)] at h2
+      rcases Nat.eq_zero_or_pos ((n - k + (s - 1)) / s) with h0 | h0
+      · rw [h0] at h2; omega
+      · have : ¬ (n - k + (s - 1)) / s * s ≥ n := fun hge => h1 ⟨by omega, hge⟩
+        omega
   | false =>
     simp only [Bool.false_eq_true, if_false] at hi
     have h1 : i ≤ (n - k) / s := by omega
